@@ -44,7 +44,7 @@ def known_f13(project, obs):
 
 if __name__ == "__main__":
     res = speccheck.run(
-        "C01", SPEC, {"security": True, "params": True, "multipkg": True}, 24, 200,
+        "C01", SPEC, {"security": True, "params": True, "multipkg": True, "nested_pkg": True}, 24, 200,
         rule="seeded abstract projects (1-4 controllers in 1-2 packages, 0-4 methods each, five verbs, route "
              "templates with/without leading, trailing and doubled slashes and {params}, hidden/deprecated "
              "mixes), rendered to Go sources and run through the real CLI for OpenAPI 3.0.0 and 3.1.0; "
